@@ -645,3 +645,174 @@ Example C12_example_chunk_applies :
   exists s outs w, run_hist exC_refuse 8 exC_pre s0 [] world0 = Ret (s, outs) w /\
     cseq_ok exC_refuse 8 1 exC_ops s w (mkachunks 0 []).
 Proof. exact exC_sequence. Qed.
+
+(* ---- OBSERVABLE CONTENTS (theories/HAbs_proofs.v): the abstraction [abs_of] (heap item -> P tree:
+   what serialization and every reader sees) after each mutating call of a rule-following client.
+   Hypotheses of every theorem: the world before satisfies Inv / caps / acyclic, the call is legal and
+   respects the no-cycle rule below_rule - exactly the hypotheses under which HHist_proofs
+   re-establishes the three invariants (C04_step, step_caps, step_acyclic), so they hold along every
+   history that follows the rules.  chunked_item text cs = ITextI cs / IBytesI cs. ---- *)
+From CB Require Import PItem HRead_proofs HAbs_proofs.
+
+Theorem C12_abs_after_push : forall refuse L s own ownd w ha hx a x s' b w' i xs tx wa wx,
+  Inv own ownd [] w -> caps w -> acyclic w ->
+  legal s own w (OPush ha hx) -> below_rule s w (OPush ha hx) ->
+  hget s ha = Some a -> hget s hx = Some x ->
+  abs_of a w = Ret (IArray i xs) wa -> abs_of x w = Ret tx wx ->
+  step refuse L s (OPush ha hx) w = Ret (s', OutBool b) w' ->
+  exists w2, abs_of a w' = Ret (IArray i (if b then xs ++ [tx] else xs)) w2.
+Proof. exact abs_after_push. Qed.
+Print Assumptions C12_abs_after_push.
+
+Theorem C12_abs_after_map_add : forall refuse L s own ownd w hm hk hv a k v s' b w' i kvs tk tv wa wk wv,
+  Inv own ownd [] w -> caps w -> acyclic w ->
+  legal s own w (OMapAdd hm hk hv) -> below_rule s w (OMapAdd hm hk hv) ->
+  hget s hm = Some a -> hget s hk = Some k -> hget s hv = Some v ->
+  abs_of a w = Ret (IMap i kvs) wa -> abs_of k w = Ret tk wk -> abs_of v w = Ret tv wv ->
+  step refuse L s (OMapAdd hm hk hv) w = Ret (s', OutBool b) w' ->
+  exists w2, abs_of a w' = Ret (IMap i (if b then kvs ++ [(tk, tv)] else kvs)) w2.
+Proof. exact abs_after_map_add. Qed.
+Print Assumptions C12_abs_after_map_add.
+
+(* P keeps the payloads of the chunks, H keeps the chunk items *)
+Theorem C12_abs_after_add_chunk : forall refuse L s own ownd w hc hx a x s' b w' text cs bs wa wx,
+  Inv own ownd [] w -> caps w -> acyclic w ->
+  legal s own w (OAddChunk hc hx) -> below_rule s w (OAddChunk hc hx) ->
+  hget s hc = Some a -> hget s hx = Some x ->
+  abs_of a w = Ret (chunked_item text cs) wa ->
+  (abs_of x w = Ret (IText bs) wx \/ abs_of x w = Ret (IBytes bs) wx) ->
+  step refuse L s (OAddChunk hc hx) w = Ret (s', OutBool b) w' ->
+  exists w2, abs_of a w' = Ret (chunked_item text (if b then cs ++ [bs] else cs)) w2.
+Proof. exact abs_after_add_chunk. Qed.
+Print Assumptions C12_abs_after_add_chunk.
+
+Theorem C12_abs_after_tag_set : forall refuse L s own ownd w ht hx t x s' r w' rc v c0 tx wx,
+  Inv own ownd [] w -> caps w -> acyclic w ->
+  legal s own w (OTagSet ht hx) -> below_rule s w (OTagSet ht hx) ->
+  hget s ht = Some t -> hget s hx = Some x ->
+  heap w t = Some (CItem rc (NTag v c0)) -> abs_of x w = Ret tx wx ->
+  step refuse L s (OTagSet ht hx) w = Ret (s', r) w' ->
+  exists w2, abs_of t w' = Ret (ITag v tx) w2.
+Proof. exact abs_after_tag_set. Qed.
+Print Assumptions C12_abs_after_tag_set.
+
+Theorem C12_abs_after_build_tag : forall refuse L s own ownd w v hx x s' ok w' tx wx,
+  Inv own ownd [] w -> caps w -> acyclic w ->
+  legal s own w (OBuildTag v hx) -> hget s hx = Some x ->
+  abs_of x w = Ret tx wx ->
+  step refuse L s (OBuildTag v hx) w = Ret (s', OutHandle ok) w' ->
+  if ok then exists t w2, new_handle s' = Some t /\ next w <= t /\ abs_of t w' = Ret (ITag v tx) w2
+  else forall b, heap w' b = heap w b.
+Proof. exact abs_after_build_tag. Qed.
+Print Assumptions C12_abs_after_build_tag.
+
+Theorem C12_abs_after_replace : forall refuse L s own ownd w ha hx a x i s' b w' ind xs tx wa wx,
+  Inv own ownd [] w -> caps w -> acyclic w ->
+  legal s own w (OReplace ha i hx) -> below_rule s w (OReplace ha i hx) ->
+  hget s ha = Some a -> hget s hx = Some x ->
+  abs_of a w = Ret (IArray ind xs) wa -> abs_of x w = Ret tx wx ->
+  step refuse L s (OReplace ha i hx) w = Ret (s', OutBool b) w' ->
+  (b = true <-> i < len xs) /\
+  exists w2, abs_of a w' = Ret (IArray ind (if b then set_nth xs (N.to_nat i) tx else xs)) w2.
+Proof. exact abs_after_replace. Qed.
+Print Assumptions C12_abs_after_replace.
+
+Theorem C12_abs_after_set : forall refuse L s own ownd w ha hx a x i s' b w' ind xs tx wa wx,
+  Inv own ownd [] w -> caps w -> acyclic w ->
+  legal s own w (OSet ha i hx) -> below_rule s w (OSet ha i hx) ->
+  hget s ha = Some a -> hget s hx = Some x ->
+  abs_of a w = Ret (IArray ind xs) wa -> abs_of x w = Ret tx wx ->
+  step refuse L s (OSet ha i hx) w = Ret (s', OutBool b) w' ->
+  (len xs < i -> b = false) /\ (i < len xs -> b = true) /\
+  exists w2, abs_of a w' =
+    Ret (IArray ind (if b then (if i =? len xs then xs ++ [tx] else set_nth xs (N.to_nat i) tx) else xs)) w2.
+Proof. exact abs_after_set. Qed.
+Print Assumptions C12_abs_after_set.
+
+(* sharing semantics.  [mutated s o] is the container the call mutates, [inserts o] says that the call
+   inserts without releasing anything (push, map_add, add_chunk, tag_set_item).  Negative half: the
+   call is invisible through every item that does not reach the container ... *)
+Theorem C12_abs_frame : forall refuse L s own ownd w o s' r w' a e t we,
+  Inv own ownd [] w -> caps w -> acyclic w -> legal s own w o -> below_rule s w o ->
+  inserts o = true -> mutated s o = Some a ->
+  step refuse L s o w = Ret (s', r) w' ->
+  ~ reach w e a -> abs_of e w = Ret t we ->
+  exists w2, abs_of e w' = Ret t w2.
+Proof. exact abs_frame. Qed.
+Print Assumptions C12_abs_frame.
+(* ... also for replace / set, which may release the overwritten element: every item that does not
+   reach the array and is still there keeps its tree *)
+Theorem C12_abs_frame_replace : forall refuse L s own ownd w o s' r w' a e t we,
+  Inv own ownd [] w -> caps w -> acyclic w -> legal s own w o -> below_rule s w o ->
+  (exists ha i hx, o = OReplace ha i hx \/ o = OSet ha i hx) -> mutated s o = Some a ->
+  step refuse L s o w = Ret (s', r) w' ->
+  ~ reach w e a -> (exists rc n, heap w' e = Some (CItem rc n)) -> abs_of e w = Ret t we ->
+  exists w2, abs_of e w' = Ret t w2.
+Proof. exact abs_frame_replace. Qed.
+Print Assumptions C12_abs_frame_replace.
+(* positive half: a direct array parent p of the mutated container a sees the new tree of a at
+   exactly the positions that hold a (subst_at), whether or not it holds a several times, and keeps
+   the trees of its other elements (which are assumed not to reach a by another path) *)
+Theorem C12_abs_parent_array : forall refuse L s own ownd w o s' r w' a p ip ys wp ta' wa',
+  Inv own ownd [] w -> caps w -> acyclic w -> legal s own w o -> below_rule s w o ->
+  inserts o = true -> mutated s o = Some a ->
+  step refuse L s o w = Ret (s', r) w' ->
+  p <> a -> abs_of p w = Ret (IArray ip ys) wp ->
+  (forall rc d c lp, heap w p = Some (CItem rc (NArr ip d c lp)) -> forall e, In e lp -> e <> a -> ~ reach w e a) ->
+  abs_of a w' = Ret ta' wa' ->
+  exists lp w2, (exists rc d c, heap w p = Some (CItem rc (NArr ip d c lp))) /\
+    abs_of p w' = Ret (IArray ip (subst_at a ta' lp ys)) w2.
+Proof. exact abs_parent_array. Qed.
+Print Assumptions C12_abs_parent_array.
+
+(* cbor_copy: the copy reads as the source, and the source still reads the same *)
+Theorem C12_abs_after_copy : forall refuse L s own ownd w h a s' ok w' t wa,
+  Inv own ownd [] w -> caps w -> acyclic w -> legal s own w (OCopy h) -> hget s h = Some a ->
+  abs_of a w = Ret t wa ->
+  step refuse L s (OCopy h) w = Ret (s', OutHandle ok) w' ->
+  (exists w3, abs_of a w' = Ret t w3) /\
+  (ok = true -> exists a' w2, new_handle s' = Some a' /\ next w <= a' /\ abs_of a' w' = Ret t w2).
+Proof. exact abs_after_copy. Qed.
+Print Assumptions C12_abs_after_copy.
+
+(* the default fuel of abs_of is always enough in a world that satisfies Inv and is acyclic *)
+Theorem C12_abs_of_complete : forall own ownd w f a t w1,
+  Inv own ownd [] w -> acyclic w -> abs f a w = Ret t w1 -> exists w2, abs_of a w = Ret t w2 /\ heap w2 = heap w.
+Proof. exact abs_of_complete. Qed.
+Print Assumptions C12_abs_of_complete.
+
+(* arrays over histories of the third layer: the calls above, the constructors of the third layer
+   and the idiom cbor_array_push(a, cbor_move(x)) (arr_lang3) *)
+From CB Require Import HHist2 HHist3 HHist3_proofs.
+Theorem C12_array_sequence3 : forall refuse L h p ops s own ownd w l,
+  Inv own ownd [] w -> caps w -> hget (base s) h = Some p -> 0 < own p -> arr_at w p l ->
+  Forall (arr_lang3 h) ops -> legal_history3 refuse L ops s own w -> seq_ok3 refuse L p ops s w l.
+Proof. exact HSeq_proofs.C12_array_sequence3. Qed.
+Print Assumptions C12_array_sequence3.
+Theorem C12_seq_ok3_reading : forall refuse L p o r s w l,
+  seq_ok3 refuse L p (o :: r) s w l <->
+  exists s' out w',
+    step3 refuse L s o w = Ret (s', out) w' /\
+    out_agrees3 (fst (astep3 refuse s w o l)) s' out /\
+    arr_at w' p (snd (astep3 refuse s w o l)) /\
+    seq_ok3 refuse L p r s' w' (snd (astep3 refuse s w o l)).
+Proof. intros. reflexivity. Qed.
+
+(* non-vacuity: the theorems applied to a concrete history - an array [7] shared by a second array
+   [[7], "hi"]; the client pushes "hi" to the first: seen through the parent, not through "hi" *)
+Example C12_example_abs : forall s' w',
+  step HRef_proofs.never 8 (fst exAbs_sw) exAbs_op (snd exAbs_sw) = Ret (s', OutBool true) w' ->
+  (exists w2, abs_of 1 w' = Ret (IArray false [IUint I8 7; IText [104; 105]]) w2) /\
+  (exists w2, abs_of 6 w' = Ret (IArray false [IArray false [IUint I8 7; IText [104; 105]]; IText [104; 105]]) w2) /\
+  (exists w2, abs_of 4 w' = Ret (IText [104; 105]) w2) /\
+  (exists w2, serialize_h 1 16 w' = Ret (Some (5, [130; 7; 98; 104; 105])) w2).
+Proof. exact exAbs_theorems. Qed.
+Example C12_example_abs_runs :
+  exists s' w', step HRef_proofs.never 8 (fst exAbs_sw) exAbs_op (snd exAbs_sw) = Ret (s', OutBool true) w'.
+Proof. exact exAbs_step. Qed.
+Example C12_example_sequence3 :
+  exists s outs w,
+    run_hist3 HRef_proofs.never 8 ex3S_pre s3_0 [] world0 = Ret (s, outs) w /\
+    seq_ok3 HRef_proofs.never 8 1 ex3S_ops s w (mkalist false 2 []).
+Proof. exact ex3S_sequence. Qed.
+
